@@ -191,6 +191,8 @@ pub struct ShimState {
     /// next id of `auto_ids` (or error when that is None), zero columns and `auto_nparams` parameters
     pub auto: bool,
     pub auto_ids: VecDeque<Option<(u32, usize)>>,
+    /// leak (instead of drop) a RowWriter whose row-level call returned Err
+    pub forget_on_refusal: bool,
 }
 
 pub struct Shim {
@@ -287,24 +289,35 @@ impl Shim {
                 }
                 Step::Set { rows, end, .. } => {
                     let mut rw = logged!(self, cb, "start", None, cur.start(&columns[si]))?;
-                    for (ri, row) in rows.iter().enumerate() {
-                        let at = Some((si, ri));
-                        match row.form {
-                            RowForm::WriteRow => {
-                                logged!(self, cb, "write_row", at, rw.write_row(row.cells.clone()))?;
-                            }
-                            RowForm::WriteRowRef => {
-                                logged!(self, cb, "write_row", at, rw.write_row(&row.cells))?;
-                            }
-                            RowForm::Cols | RowForm::ColsOpen => {
-                                for cell in &row.cells {
-                                    logged!(self, cb, "write_col", at, dispatch(cell, &mut ColSink(&mut rw)))?;
+                    let written = (|| -> io::Result<()> {
+                        for (ri, row) in rows.iter().enumerate() {
+                            let at = Some((si, ri));
+                            match row.form {
+                                RowForm::WriteRow => {
+                                    logged!(self, cb, "write_row", at, rw.write_row(row.cells.clone()))?;
                                 }
-                                if row.form == RowForm::Cols {
-                                    logged!(self, cb, "end_row", at, rw.end_row())?;
+                                RowForm::WriteRowRef => {
+                                    logged!(self, cb, "write_row", at, rw.write_row(&row.cells))?;
+                                }
+                                RowForm::Cols | RowForm::ColsOpen => {
+                                    for cell in &row.cells {
+                                        logged!(self, cb, "write_col", at, dispatch(cell, &mut ColSink(&mut rw)))?;
+                                    }
+                                    if row.form == RowForm::Cols {
+                                        logged!(self, cb, "end_row", at, rw.end_row())?;
+                                    }
                                 }
                             }
                         }
+                        Ok(())
+                    })();
+                    if let Err(e) = written {
+                        if self.st.borrow().forget_on_refusal {
+                            // what happens when a RowWriter is dropped in the middle of a row that was
+                            // refused is outside every listed property: do not go there
+                            std::mem::forget(rw);
+                        }
+                        return Err(e);
                     }
                     match end {
                         SetEnd::FinishOne => {
